@@ -304,8 +304,25 @@ func (f *FN) HStar() uint64 {
 // AddForeignP2PHeader appends a header that is NOT the proposer's to the P2P header store double at the
 // next position (a peer served it), lets the real store loop pick it up and waits for quiescence.
 func (f *FN) AddForeignP2PHeader(h *types.SignedHeader) error {
-	f.N.HStore.Add(h)
-	f.p2pH++
+	return f.AddP2PBatch(-1, h)
+}
+
+// AddP2PBatch appends the genuine headers up to index genuineUpTo (if they are not there yet) and then, if
+// foreign is not nil, a header that is NOT the proposer's at the next position - all within one poll of the
+// store loop (no tick in between) - then lets the loop run and waits for quiescence.
+func (f *FN) AddP2PBatch(genuineUpTo int, foreign *types.SignedHeader) error {
+	for ; f.p2pH <= genuineUpTo && f.p2pH < len(f.P.Heights); f.p2pH++ {
+		f.N.HStore.Add(f.P.Header(f.p2pH))
+		f.GotH[f.p2pH] = true
+	}
+	if foreign != nil {
+		f.N.HStore.Add(foreign)
+		f.p2pH++
+	}
+	return f.p2pHeaderTick()
+}
+
+func (f *FN) p2pHeaderTick() error {
 	if err := f.L.SignalBarrier("headerStore", "headerStore"); err != nil {
 		return err
 	}
